@@ -384,7 +384,7 @@ func (ck *Check) invariants(rule string, as *acceptSet) {
 		LinFact{A: zero, B: minN, K: 0, Text: "0 ≤ min"}, LinFact{A: minN, B: maxN, K: -1, Text: "min < max"})
 	// helper predicates are applied to the right option
 	for _, h := range []struct{ fn, tag string }{{"validTaintEffect", "taint_effect"}, {"validAWSLifecycle", "aws/lifecycle"}, {"validMaxNodeAgeDuration", "max_node_age"}} {
-		hf := ck.P.SSAPkg[pkgController].Func(h.fn)
+		hf := map[string]*ssa.Function{"validTaintEffect": a.ValidEffect, "validAWSLifecycle": a.ValidLifecycle, "validMaxNodeAgeDuration": a.ValidMaxAge}[h.fn]
 		if hf == nil {
 			ck.lost(rule, h.fn, "helper not found")
 			continue
@@ -419,9 +419,9 @@ func (ck *Check) invariants(rule string, as *acceptSet) {
 
 // helperPredicates (C16.R2)
 func (ck *Check) helperPredicates(rule string) {
-	sp := ck.P.SSAPkg[pkgController]
+	_ = ck.P.SSAPkg[pkgController]
 	// validAWSLifecycle ⇔ len == 0 ∨ == on-demand ∨ == spot
-	if fn := sp.Func("validAWSLifecycle"); fn != nil {
+	if fn := ck.A.ValidLifecycle; fn != nil {
 		ctx := ck.P.NewCtx(fn)
 		p := paramTerm(fn.Params[0])
 		got := ctx.returnFormula(0)
@@ -437,7 +437,7 @@ func (ck *Check) helperPredicates(rule string) {
 		ck.lost(rule, "validAWSLifecycle", "not found")
 	}
 	// validTaintEffect ⇔ len == 0 ∨ TaintEffectTypes[e]; the map has exactly the three effects → true
-	if fn := sp.Func("validTaintEffect"); fn != nil {
+	if fn := ck.A.ValidEffect; fn != nil {
 		ctx := ck.P.NewCtx(fn)
 		p := paramTerm(fn.Params[0])
 		got := ctx.returnFormula(0)
@@ -487,7 +487,7 @@ func (ck *Check) helperPredicates(rule string) {
 		ck.lost(rule, "validTaintEffect", "not found")
 	}
 	// validMaxNodeAgeDuration ⇔ "" ∨ ParseDuration ok
-	if fn := sp.Func("validMaxNodeAgeDuration"); fn != nil {
+	if fn := ck.A.ValidMaxAge; fn != nil {
 		ctx := ck.P.NewCtx(fn)
 		p := paramTerm(fn.Params[0])
 		got := ctx.returnFormula(0)
